@@ -277,7 +277,7 @@ def run(prop, replay_file=None):
         "universe-driven runs have market data from the entry day on (or the run must fail identically in model and code)",
     ]
     rng = random.Random(sd * 9973 + {"C08": 1, "C14": 2, "C19": 3}.get(prop, 4))
-    n = 600 if t == "quick" else 6000
+    n = 600 if t == "quick" else 12000
     if replay_file:
         cfgs = [json.load(open(replay_file))["config"]]
     else:
